@@ -62,8 +62,19 @@ def g_def(rng, name, rich=True, tpl=0.25):
             "fin": [g_fin(rng) for _ in range(nf)], "vars": vs, "prio": rng.choice(PRIOS), "name": name}
 
 
+MAXFIN = 3      # every concat finalizer after the first joins the CHARACTERS of the previous output: keep outputs small
+MAXOUT = 20000
+
+
 def number(case):
     """give every item / post-processing item / finalizer object its identity"""
+    nf = 0
+    for d in case["defs"] + [case["bk"], case["of"]]:
+        keep = []
+        for f in d["fin"]:
+            if nf < MAXFIN:
+                keep.append(f); nf += 1
+        d["fin"] = keep
     u = 1
     for d in case["defs"] + [case["bk"], case["of"]]:
         for part in ("items", "post", "fin"):
@@ -139,7 +150,7 @@ def with_prog(base, prog):
 def gen_hist(tier, rng):
     quick = tier == "quick"
     out = []
-    nbase = 22 if quick else 420
+    nbase = 60 if quick else 420
     for bi in range(nbase):
         base = number(g_base(rng, tpl=0.12))
         n = len(base["defs"])
@@ -200,7 +211,7 @@ def gen_hist(tier, rng):
             out.append(with_prog(base, [["tree", [0, 1]], ["tree", [1, 0]], ["convert", False, n + 1]]))
             out.append(with_prog(base, [["tree", [0, 1]], ["tree", [1, 0]], ["convert", False, n]]))
     # --- random histories
-    for _ in range(150 if quick else 6000):
+    for _ in range(400 if quick else 6000):
         base = number(g_base(rng, tpl=0.2))
         n = len(base["defs"])
         names = [d["name"] for d in base["defs"]]
@@ -291,6 +302,8 @@ def c_result(r):
             return f"(SigmaErr {SIGMA_TAGS.get(r['exc'], 99)} : outcome result)"
         return f"(Crash {CRASH_TAGS.get(r['exc'], 97)} : outcome result)"
     o = r["out"]
+    if sum(len(x) for x in (o[1] if o[0] == "l" else [o[1]])) > MAXOUT:     # cannot be right (see MAXFIN); keep the Coq term small
+        o = ["s", "<output longer than %d characters>" % MAXOUT]
     if o[0] == "l": out = f"OList {clist(cstr(x) for x in o[1])}"
     elif o[0] == "s": out = f"OStr {cstr(o[1])}"
     else: return "(Crash 96 : outcome result)"
